@@ -523,9 +523,19 @@ func (c *Ctx) c01Opaque(ar *ssa.Function) {
 		key := fname(ar) + ":lookup-error-only-without-placeholder"
 		good := false
 		var lookup *ssa.Call
+		lookupFn := ar
+		cands := []*ssa.Function{ar}
 		for _, ci := range flow.CallInstrs(ar) {
-			if call, ok := ci.(*ssa.Call); ok && flow.IsCallTo(call, pkgDict, "Parser", "FindAVPWithVendor") {
-				lookup = call
+			// the dictionary step may be a method of its own (decodeData)
+			if h := flow.StaticCallee(ci); h != nil && h.Blocks != nil && c.P.IsLibrary(h) && pkgOf(h).Path() == pkgDiam && h.Signature.Recv() != nil && flow.RecvTypeName(h.Signature) == "AVP" && !c.isAVPDecodeFn(h) {
+				cands = append(cands, h)
+			}
+		}
+		for _, g := range cands {
+			for _, ci := range flow.CallInstrs(g) {
+				if call, ok := ci.(*ssa.Call); ok && flow.IsCallTo(call, pkgDict, "Parser", "FindAVPWithVendor") && lookup == nil {
+					lookup, lookupFn = call, g
+				}
 			}
 		}
 		if lookup != nil {
@@ -536,7 +546,7 @@ func (c *Ctx) c01Opaque(ar *ssa.Function) {
 					dv = ex
 				}
 			}
-			flow.Instrs(ar, func(in ssa.Instruction) {
+			flow.Instrs(lookupFn, func(in ssa.Instruction) {
 				ret, ok := in.(*ssa.Return)
 				if !ok || len(ret.Results) == 0 || ret.Results[len(ret.Results)-1] != e {
 					return
